@@ -98,8 +98,8 @@ Definition run_model (c : case) : outcome (list fact) :=
 (* the code before the fixes, for the seeded-defect demonstrations and refutations *)
 Definition run_model_F2 (c : case) : outcome (list fact) :=
   eval_program_do (rewrite_F2 ord_id) (Z.to_nat (c_fuel c)) (c_prog c) (c_layers c) (c_store c) (c_init c).
-Definition run_model_N40 (c : case) : outcome (list fact) :=
-  eval_program_do (rewrite_N40 ord_id) (Z.to_nat (c_fuel c)) (c_prog c) (c_layers c) (c_store c) (c_init c).
+Definition run_model_F2c (c : case) : outcome (list fact) :=
+  eval_program_do (rewrite_F2c ord_id) (Z.to_nat (c_fuel c)) (c_prog c) (c_layers c) (c_store c) (c_init c).
 
 (* ---- observer side: the solution set of a rule's own body over the facts G.
    A solution binds the body's variables; the wildcard positions are not part of it,
@@ -172,7 +172,7 @@ Definition judge_with (m : outcome (list fact)) (c : case) : Z :=
 
 Definition judge (c : case) : Z := judge_with (run_model c) c.
 Definition judge_F2 (c : case) : Z := judge_with (run_model_F2 c) c.
-Definition judge_N40 (c : case) : Z := judge_with (run_model_N40 c) c.
+Definition judge_F2c (c : case) : Z := judge_with (run_model_F2c c) c.
 
 (* the observer alone on the model's own result: must accept (do_groups_exact +
    rewrite_isolated say so under their hypotheses); used by the probes *)
